@@ -578,7 +578,7 @@ func scanLoop(c *core.Ctx, l *natLoop) (bool, string) {
 		for _, in := range b.Instrs {
 			switch y := in.(type) {
 			case *ssa.Store:
-				if fa, ok := y.Addr.(*ssa.FieldAddr); ok && core.FieldAddrRef(fa).Struct != nil && core.FieldAddrRef(fa).Struct.Obj().Name() == "NameScanner" {
+				if fa, ok := y.Addr.(*ssa.FieldAddr); ok && core.FieldAddrRef(fa).Struct != nil && core.StructName(core.FieldAddrRef(fa).Struct) == "NameScanner" {
 					return false, "the loop writes the scanner's fields"
 				}
 				if y.Addr == recv {
